@@ -120,7 +120,11 @@ pub fn execute_fsm_pipe(fsm_pipe: &FsmPipe, env: Option<&Environment>, p: &Inter
     call_env.insert(arg_decl.name.hash(), detached_arg);
   }
   let mut state = pattern_to_value(&fsm.start, &call_env, p)?;
-  validate_fsm_state_coverage(&fsm, fsm_pipe)?;
+  let spec = {
+    let specs = p.user_state_machine_specs.borrow();
+    specs.get(&fsm_id).cloned()
+  };
+  validate_fsm_state_coverage(&fsm, spec.as_ref(), fsm_pipe)?;
   execute_fsm_pipe_impl(&fsm, &mut state, &mut call_env, p)
 }
 
@@ -306,7 +310,7 @@ fn execute_fsm_pipe_impl(fsm: &FsmImplementation, state: &mut Value, call_env: &
   .with_compiler_loc())
 }
 
-fn validate_fsm_state_coverage(fsm: &FsmImplementation, fsm_pipe: &FsmPipe) -> MResult<()> {
+fn validate_fsm_state_coverage(fsm: &FsmImplementation, spec: Option<&FsmSpecification>, fsm_pipe: &FsmPipe) -> MResult<()> {
   let state_names: HashSet<String> = fsm
     .arms
     .iter()
@@ -320,6 +324,38 @@ fn validate_fsm_state_coverage(fsm: &FsmImplementation, fsm_pipe: &FsmPipe) -> M
     .collect();
   if state_names.is_empty() {
     return Ok(());
+  }
+
+  // When the machine has a specification, its state list is the set of declared states:
+  // every state the implementation gives an arm to must be declared, and every declared
+  // state must have an arm. (Transition targets and the start state are checked against
+  // the arms below, hence against the declaration as well.)
+  if let Some(spec) = spec {
+    let declared: HashSet<String> = spec.states.iter().map(|s| s.name.to_string()).collect();
+    let undefined = |state_name: String| {
+      MechError::new(
+        FsmUndefinedStateError {
+          fsm_name: fsm.name.to_string(),
+          state_name,
+        },
+        None,
+      )
+      .with_compiler_loc()
+      .with_tokens(fsm_pipe.start.tokens())
+    };
+    let mut implemented: Vec<&String> = state_names.iter().collect();
+    implemented.sort();
+    for state_name in implemented {
+      if !declared.contains(state_name) {
+        return Err(undefined(state_name.clone()));
+      }
+    }
+    for state in &spec.states {
+      let state_name = state.name.to_string();
+      if !state_names.contains(&state_name) {
+        return Err(undefined(state_name));
+      }
+    }
   }
 
   let start_state = state_name_from_pattern(&fsm.start).ok_or_else(|| {
